@@ -201,6 +201,67 @@ pub fn check_graph(
     Ok(())
 }
 
+
+/// C20 (runtime part): calling morphism_toposort again on identical tables must return the
+/// identical sequence (no dependence on hash seeds or addresses). Judged only on repeat calls with
+/// the *same* split, where any difference is non-determinism.
+pub fn check_repeat(g: &Graph, c: &mut dyn Chooser, nsplits: usize, stats: &mut Stats) -> Result<(), String> {
+    let ndom = g.mors.iter().filter(|m| m.1.is_some()).count();
+    let ncod = g.mors.iter().filter(|m| m.2.is_some()).count();
+    let nbits = ndom + ncod + g.objects.len();
+    for s in 0..nsplits {
+        let split: Vec<bool> = match s {
+            0 => vec![true; nbits],
+            1 => vec![false; nbits],
+            _ => (0..nbits).map(|_| c.choose(2) == 0).collect(),
+        };
+        let mut runs: Vec<Option<Vec<(u32, u32, u32)>>> = vec![];
+        for _ in 0..3 {
+            let mut dom_new = PrefixTree2::new();
+            let mut dom_old = PrefixTree2::new();
+            let mut cod_new = PrefixTree2::new();
+            let mut cod_old = PrefixTree2::new();
+            let mut obj_new = PrefixTree1::new();
+            let mut obj_old = PrefixTree1::new();
+            let mut i = 0;
+            for (m, d, _) in &g.mors {
+                if let Some(d) = d {
+                    if split[i] { dom_new.insert([*d, *m]); } else { dom_old.insert([*d, *m]); }
+                    i += 1;
+                }
+            }
+            for (m, _, cd) in &g.mors {
+                if let Some(cd) = cd {
+                    if split[i] { cod_new.insert([*m, *cd]); } else { cod_old.insert([*m, *cd]); }
+                    i += 1;
+                }
+            }
+            for o in &g.objects {
+                if split[i] { obj_new.insert([*o]); } else { obj_old.insert([*o]); }
+                i += 1;
+            }
+            let r = morphism_toposort(&dom_new, &dom_old, &cod_new, &cod_old, &obj_new, &obj_old);
+            runs.push(r.ok().map(|v| v.iter().map(|m| (m.morph, m.dom, m.cod)).collect()));
+            stats.comparisons += 1;
+        }
+        if runs[1] != runs[0] || runs[2] != runs[0] {
+            return Err(format!(
+                "split {:?}: repeated calls of morphism_toposort on identical tables returned different results: {:?} vs {:?} vs {:?}",
+                split, runs[0], runs[1], runs[2]
+            ));
+        }
+        if let Some(v) = &runs[0] {
+            if v.len() >= 2 {
+                stats.bump("repeat_checked_sequences_len_ge_2", 1);
+            }
+            let mut h: u64 = 0xcbf29ce484222325;
+            for t in v { fnv(&mut h, t.0 as u64); }
+            stats.state(h);
+        }
+    }
+    Ok(())
+}
+
 pub fn random_graph(c: &mut dyn Chooser, max_obj: usize, max_mor: usize, acyclic_bias: bool) -> Graph {
     let nobj = c.choose(max_obj + 1);
     // object ids and morphism ids are drawn from separate, non-contiguous ranges
